@@ -252,6 +252,12 @@ def run(ctx: Ctx) -> int:
         if len(b["rec"].events) <= 60:
             traces.append(trace_of(b["rec"]))
             origins.append({k: v for k, v in origin.items()})
+    # ---- several paths on one command line, name clashes between them (Roots.tla, every sequence replayed)
+    from .. import rootscheck
+    ctx.extra["roots"] = rootscheck.run(ctx, 2 if ctx.quick else 3, ["a", "b"])
+    if ctx.quick:
+        one = rootscheck.run(ctx, 3, ["a"])        # three paths fighting for one name
+        ctx.extra["roots"] = {k: v + one[k] for k, v in ctx.extra["roots"].items()}
     stats = validate_traces(ctx, traces, origins)
     ctx.extra["trace_validation"] = stats
     # ---- negative control: corrupt one recorded key -> must be rejected and flagged
